@@ -18,6 +18,7 @@ import NumbersModel.Gen.TrEdit
 import NumbersModel.Gen.TrCache
 import NumbersModel.Gen.TrTok
 import NumbersModel.Gen.TrLoad
+import NumbersModel.Gen.TrIwa
 import NumbersModel.Drv.Loader
 import NumbersModel.Drv.Tokenizer
 import NumbersModel.Drv.Addressing
@@ -321,6 +322,31 @@ def handleTrLoader : List String → Option String
     | _ => none
   | _ => none
 
+/-- the chunk framing of iwafile.py through the TRANSLATED definitions; same requests (and recorded snappy / protobuf tables)
+    as Drv/Iwa.lean: `isiwa <hex>`, `decompress <hex> T …`, `framestream <hex> T …`; `archinfo <hex> T …` is
+    `get_archive_info_and_remainder` (reply: header id, length of the remainder) -/
+def handleTrIwa (ws : List String) : Option String :=
+  let (args, tws) := splitT ws
+  match parseTables (tws.length + 1) tws {} with
+  | none => none
+  | some t =>
+    let e := tableExt t
+    match args with
+    | ["isiwa", d] => do
+      let d ← parseBytesBig d
+      pure (showPyM (fun b => if b then "1" else "0") (is_iwa_file d.toList))
+    | ["decompress", d] => do
+      let d ← parseBytesBig d
+      pure (showPyM showBytesBig ((decompress_all e.uncompress d.toList).map List.flatten))
+    | ["framestream", s] => do
+      let s ← parseBytesBig s
+      pure (showPyM showBytesBig (chunk_to_buffer e.compress s.toList))
+    | ["archinfo", d] => do
+      let d ← parseBytesBig d
+      pure (showPyM (fun (p : THeader × Bytes) => s!"{p.1.id} {p.2.length}")
+        (get_archive_info_and_remainder e.parseInfo d.toList))
+    | _ => none
+
 def trDispatch (line : String) : String :=
   let ws := (line.splitOn " ").filter (· ≠ "")
   let r : Option String := match ws with
@@ -340,6 +366,7 @@ def trDispatch (line : String) : String :=
     | "token" :: rest => handleTrToken rest
     | "tok" :: rest => handleTrTokenize rest
     | "loader" :: rest => handleTrLoader rest
+    | "iwa" :: rest => handleTrIwa rest
     | _ => none
   match r with
   | some s => s
